@@ -296,4 +296,91 @@ theorem definitionField_safeS (d : Nat) (hd : 1 ≤ d) (f : Fields) : SafeS L (d
       · repeat wps_step
 
 
+/-! ### the field parsers -/
+
+macro_rules | `(tactic| safe_side) => `(tactic| with_reducible exact int_safe)
+
+theorem accessionField_safeS (d : Nat) (f : Fields) : SafeS L (accessionField d f) := by
+  unfold accessionField; wps_run
+theorem versionField_safeS (d : Nat) (f : Fields) : SafeS L (versionField d f) := by
+  unfold versionField; wps_run
+theorem commentField_safeS (d : Nat) (f : Fields) : SafeS L (commentField d f) := by
+  unfold commentField; wps_run
+
+theorem dblinkMore_safeS (d : Nat) : ∀ k f, SafeS L (dblinkMore d k f)
+  | 0, f => by unfold dblinkMore; wps_run
+  | k + 1, f => by
+    have ih := dblinkMore_safeS d k
+    unfold dblinkMore; wps_run
+
+macro_rules | `(tactic| safeS_side) => `(tactic| with_reducible exact dblinkMore_safeS _ _ _)
+
+theorem dblinkField_safeS (d : Nat) (f : Fields) : SafeS L (dblinkField d f) := by
+  unfold dblinkField; wps_run
+
+theorem keywordsField_safeS (d : Nat) (f : Fields) : SafeS L (keywordsField d f) := by
+  unfold keywordsField; wps_run
+
+theorem taxonMore_safeS (d : Nat) : ∀ k acc, SafeS L (taxonMore d k acc)
+  | 0, acc => by unfold taxonMore; wps_run
+  | k + 1, acc => by
+    have ih := taxonMore_safeS d k
+    unfold taxonMore; wps_run
+
+macro_rules | `(tactic| safeS_side) => `(tactic| with_reducible exact taxonMore_safeS _ _ _)
+
+theorem sourceField_safeS (d : Nat) (f : Fields) : SafeS L (sourceField d f) := by
+  unfold sourceField; wps_run
+
+theorem refSub_safeS (nm : String) (d st : Nat) : SafeS L (refSub nm d st) := by
+  unfold refSub
+  apply mapped_safeS
+  wps_run
+
+macro_rules | `(tactic| safeS_side) => `(tactic| with_reducible exact refSub_safeS _ _ _)
+
+theorem refAlts_safeS (d st : Nat) (r : Reference) : ∀ l, SafeS L (refAlts d st r l)
+  | [] => by unfold refAlts; wps_run
+  | (n, set) :: rest => by
+    have ih := refAlts_safeS d st r rest
+    unfold refAlts; wps_run
+
+macro_rules | `(tactic| safeS_side) => `(tactic| with_reducible exact refAlts_safeS _ _ _ _)
+
+theorem refSubfield_safeS (d st : Nat) (r : Reference) : SafeS L (refSubfield d st r) := by
+  unfold refSubfield; wps_run
+
+macro_rules | `(tactic| safeS_side) => `(tactic| with_reducible exact refSubfield_safeS _ _ _)
+
+theorem refSubfields_safeS (d : Nat) : ∀ k st r, SafeS L (refSubfields d k st r)
+  | 0, st, r => by unfold refSubfields; wps_run
+  | k + 1, st, r => by
+    have ih := refSubfields_safeS d k
+    unfold refSubfields; wps_run
+
+macro_rules | `(tactic| safeS_side) => `(tactic| with_reducible exact refSubfields_safeS _ _ _ _)
+
+theorem referenceField_safeS (d : Nat) (f : Fields) : SafeS L (referenceField d f) := by
+  unfold referenceField; wps_run
+
+theorem featuresField_safeS (reg : Registry) : SafeS L (featuresField reg) := by
+  unfold featuresField; wps_run
+
+theorem untilColon_safe : Safe untilColon := by
+  intro L base n s h
+  unfold untilColon
+  rw [wp_bind]; apply wp_getS; dsimp only
+  split <;> repeat wp_step
+
+macro_rules | `(tactic| safe_side) => `(tactic| with_reducible exact untilColon_safe)
+
+theorem contigField_safeS (d : Nat) (f : Fields) : SafeS L (contigField d f) := by
+  unfold contigField; wps_run
+
+theorem extraField_safeS (d : Nat) (f : Fields) : SafeS L (extraField d f) := by
+  unfold extraField; wps_run
+
+theorem endMark_safe : Safe endMark := by
+  unfold endMark; wp_run
+
 end Gts.GenBank
